@@ -1230,17 +1230,26 @@ example : Spec (caseOf gW (.daPoly valsW .exclude 1 true false))
     (obsOf (viewAfter .all gW [.daPoly valsW .exclude 1 true false, .gridPoly .split 0 false false]
       (.daPoly valsW .exclude 1 true false))) := by decide
 
-/-- **as-is** (fixes/C15-dataarray-gdf-copy.patch not applied): `UxDataArray.to_geodataframe` writes its column
-    into the frame `Grid.to_geodataframe` handed out earlier.  `returned_object_stable` is false for the
-    unrepaired code. -/
+/-- **current code, listed finding** (fixes/C15-dataarray-gdf-copy.patch was NOT applied: upstream tests specify the
+    identical cached frame): `UxDataArray.to_geodataframe` writes its column into the frame
+    `Grid.to_geodataframe` handed out earlier.  `returned_object_stable` needs `copyFrame`; it is false for
+    the code as it stands (`Repairs.current`), although everything else is repaired. -/
 theorem asis_returned_frame_mutated :
     ¬ (∀ (g : G) (s : St Nat) (h2 : List (Op Nat)) (id : Nat) (fr : Frame Nat),
-        s.heap[id]? = some fr → (run .asIs g s h2).1.heap[id]? = some fr) := by
+        s.heap[id]? = some fr → (run .current g s h2).1.heap[id]? = some fr) := by
   intro hall
-  have := hall gW (run .asIs gW St.init [.gridGdf ⟨.exclude, 0, 0⟩ true false]).1
+  have := hall gW (run .current gW St.init [.gridGdf ⟨.exclude, 0, 0⟩ true false]).1
     [.daGdf 0 valsW ⟨.exclude, 0, 0⟩ true false] 0
     { rows := [1, 2], tag := 0, eng := 0, cols := [] } (by decide)
   revert this; decide
+
+/-- the code as it stands meets the hypotheses of `export_history_free`, `export_meets_spec_after_any_history`
+    and of every `*_meets_spec` theorem (only `returned_object_stable` needs the switch that is off); the geometry of
+    handed-out frames is stable in any case (`returned_geometry_stable`) -/
+example : Repairs.current.ignoreProj = true ∧ Repairs.current.sideRestore = true ∧
+    Repairs.current.copyFrame = false := by decide
+example : viewAfter .current gW histW (.daPoly valsW .exclude 1 false false)
+    = { err := false, rows := [2], tag := 1, data := some [12] } := by decide
 
 /-- **as-is** (fixes/C15-ignore-honours-projection.patch not applied): `ignore` + projection on a grid with a
     crossing face — the non-NaN positions were computed after deleting the crossing faces but index the
